@@ -89,6 +89,22 @@ func build(sp Spec, o *obs) func() {
 						e1, e2 := fmt.Errorf("e-%d-%da", ti, oi), fmt.Errorf("e-%d-%db", ti, oi)
 						o.appended = append(o.appended, e1, e2)
 						cs.AppendError(e1, nil, e2)
+					case "errbatch":
+						// two batches reported from ONE caller-owned slice with spare capacity that is
+						// overwritten after each call (the scope must keep its own copy)
+						batch := make([]error, 0, 4)
+						e1, e2 := fmt.Errorf("b-%d-%da", ti, oi), fmt.Errorf("b-%d-%db", ti, oi)
+						o.appended = append(o.appended, e1, e2)
+						batch = append(batch, e1, e2)
+						cs.AppendError(batch...)
+						scr := errors.New("scribbled-by-the-caller")
+						batch[0], batch[1] = scr, scr
+						e3 := fmt.Errorf("b-%d-%dc", ti, oi)
+						o.appended = append(o.appended, e3)
+						batch = append(batch[:0], e3)
+						cs.AppendError(batch...)
+						batch[0] = scr
+						batch = append(batch, scr, scr, scr)
 					case "kill":
 						o.kills++
 						cs.Kill()
@@ -277,6 +293,12 @@ func programs(thorough bool) []Spec {
 			Spec{k, [][]string{{"err2"}, {"seen"}, {"seen"}}, b3},
 			Spec{k, [][]string{{"err"}, {"kill"}, {"seen"}}, b3},
 		)
+		// batches from a re-used caller slice
+		ps = append(ps,
+			Spec{k, [][]string{{"errbatch", "errors"}}, 0},
+			Spec{k, [][]string{{"errbatch"}, {"err"}}, b2},
+			Spec{k, [][]string{{"errbatch"}, {"errbatch"}}, b2-1},
+		)
 		// cumulative accessors asked between appends
 		ps = append(ps,
 			Spec{k, [][]string{{"err", "err()", "err", "err()"}}, 0},
@@ -361,7 +383,7 @@ var _ = errors.New
 
 func init() {
 	fw.Register(&fw.Check{ID: "C12", Level: "model_checking",
-		Rule: "programs = scope kind {plain context scope, isolated, full scope, child sharing the parent's context} x thread programs (all pairs of single operations from {AppendError, Kill, Stop, IsDone, Errors}; curated 2x2; 3x1; readers that look at Errors/Err after having observed the done signal) plus child creation/closing after and racing with the parent's end; every schedule of the real code with <= bound preemptions (2 threads: 3 quick / 4 thorough; 3 threads: 2 / 3) is executed; oracle: no panic (a double close of the done channel or a negative wait-group counter panics), error count and identity, done signal, a reader that saw the done signal of a never-stopped scope sees its error, Wait/Close report, no deadlock, and the happens-before race oracle on the scope packages' multi-word fields. states = distinct schedule traces",
+		Rule: "programs = scope kind {plain context scope, isolated, full scope, child sharing the parent's context} x thread programs (all pairs of single operations from {AppendError, Kill, Stop, IsDone, Errors}; curated 2x2; 3x1; batches reported from one re-used, overwritten caller slice; readers that look at Errors/Err after having observed the done signal) plus child creation/closing after and racing with the parent's end; every schedule of the real code with <= bound preemptions (2 threads: 3 quick / 4 thorough; 3 threads: 2 / 3) is executed; oracle: no panic (a double close of the done channel or a negative wait-group counter panics), error count and identity, done signal, a reader that saw the done signal of a never-stopped scope sees its error, Wait/Close report, no deadlock, and the happens-before race oracle on the scope packages' multi-word fields. states = distinct schedule traces",
 		Run: run, Replay: replay,
 		Assumptions: []string{"2-3 concurrent callers; preemption bounds as reported", "word-sized fields (e.g. the closed flag) are outside the race oracle"}})
 }
